@@ -311,6 +311,64 @@ func ZZ_C18_SetValues() {
 	zzvf.Reach("setvalues")
 }
 
+// The same for a file that spells some keys with the other separators of the properties syntax
+// (':' or a blank instead of '='): a value written for such a key reads back, the others stay.
+//vf: paths=2000
+func ZZ_C18_SetValuesOtherSeparators() {
+	home := zzvf.FsHome()
+	defer zzvf.FsCleanup()
+	zzvf.Clock = 1000000
+	path := filepath.Join(home, "whatap.conf")
+	zzvf.FsWrite(path, []byte("# c\nzzk1: one\nzzk2 two\nzzk3=three\n"), zzT0)
+	c := zzConf(home, nil)
+	zzvf.Assert(zzvf.And(c.GetValue("zzk1") == "one", c.GetValue("zzk2") == "two"), "setvalues-separators/loaded")
+	ki := zzvf.Choose(3)
+	key := []string{"zzk1", "zzk2", "zzk3"}[ki]
+	val := zzFrom(zzPlainAlpha, 2)
+	kv := map[string]string{key: val}
+	pv := zzvf.PanicValue(func() { c.SetValues(&kv) })
+	zzvf.Assert(pv == "", "setvalues-separators/no-panic")
+	if pv != "" {
+		return
+	}
+	zzvf.Clock += 10000
+	c2 := zzConf(home, nil)
+	zzvf.Assert(c2.getValueRaw(key) == val, "setvalues-separators/written-value-reads-back-unchanged")
+	for i, k := range []string{"zzk1", "zzk2", "zzk3"} {
+		if i != ki {
+			zzvf.Assert(c2.GetValue(k) == []string{"one", "two", "three"}[i], "setvalues-separators/other-keys-keep-their-values")
+		}
+	}
+	raw, _ := zzvf.FsRead(path)
+	zzvf.Assert(strings.HasPrefix(string(raw), "# c\n"), "setvalues-separators/comment-survives")
+	zzvf.Reach("setvalues-separators")
+}
+
+// A write-back is a change of the file like any other: after SetValues and the next poll the written
+// value is visible through the getters and the registered observers have been notified of it.
+//vf: paths=2000
+func ZZ_C18_SetValuesNotifies() {
+	home := zzvf.FsHome()
+	defer zzvf.FsCleanup()
+	zzvf.Clock = 1000000
+	path := filepath.Join(home, "whatap.conf")
+	zzvf.FsWrite(path, []byte(zzFile0), zzT0)
+	obs := &zzObs{}
+	c := zzConf(home, obs)
+	zzPoll(c)
+	n0 := obs.n
+	key := []string{"zzk1", "zzk9"}[zzvf.Choose(2)]
+	val := zzFrom(zzPlainAlpha, 2)
+	zzvf.Assume(val != "on") // zzk1=one: a different value in every case
+	kv := map[string]string{key: val}
+	c.SetValues(&kv)
+	zzvf.Clock += 2000
+	zzPoll(c)
+	zzvf.Assert(c.GetValue(key) == val, "setvalues-notifies/written-value-visible-after-the-next-poll")
+	zzvf.Assert(obs.n > n0, "setvalues-notifies/observers-notified-of-the-write-back")
+	zzvf.Reach("setvalues-notifies")
+}
+
 // (untrimmed value as stored)
 func (this *FileConfig) getValueRaw(key string) string { return this.m[key] }
 
